@@ -3,7 +3,7 @@ S->C: spec/IA32Space.tla (TLC) enumerates byte strings by driving the reference 
 spec/IA32Decode.tla forwards; miasmX decodes them and vf/instr_abs.py projects its Intel rendering;
 C->S: spec/T_C01.tla compares Decode(bytes) with the projected record clause by clause.  Seeded random
 structured byte strings take the C->S route too."""
-import sys, json, random, collections
+import os, sys, json, random, collections
 from . import core, ia32lib, ia32space
 
 
@@ -206,10 +206,9 @@ def run(tier, chk):
                 op1.remove(0x0F)
             g = ia32space.gen(2, False, op1, chk)
             judge_space(chk, 'IA32Space MaxDev=2 op %02X-%02X' % (lo, lo + 15), pad(g['done'] + g['dead']), rnd, rows)
-        g = ia32space.gen(2, False, [0x0F], chk)
-        s = pad(g['done'] + g['dead'])
-        for k in range(0, len(s), 400000):
-            judge_space(chk, 'IA32Space MaxDev=2 op 0F part %d' % (k // 400000), s[k:k + 400000], rnd, rows)
+        for lo in range(0, 256, 32):
+            g = ia32space.gen(2, False, [0x0F], chk, op2=range(lo, lo + 32))
+            judge_space(chk, 'IA32Space MaxDev=2 op 0F %02X-%02X' % (lo, lo + 31), pad(g['done'] + g['dead']), rnd, rows)
         g = ia32space.gen(1, True, None, chk)
         judge_space(chk, 'IA32Space MaxDev=1 base=67', pad(g['done']), rnd, rows)
     # C->S: seeded random structured byte strings of 1..15 bytes
@@ -231,10 +230,8 @@ CONTROLS = ['01d8', '8b4c2410', '83c0ff', '0fb6c1', 'e800000080', 'd8c1', '660f5
 
 
 def negative_control(chk):
-    obs = ia32lib.observe([bytes.fromhex(h) for h in CONTROLS])
-    if any(o['st'] != 'instr' for o in obs):
-        raise core.MachineryError('C01 negative control: miasmX does not decode the control set: %r' % [(o['st'], o.get('why')) for o in obs])
-    good = [ia32lib.to_record(i, o) for i, o in enumerate(obs)]
+    # control records were recorded once on the unchanged tree and frozen: the control must not depend on the tree under test
+    good = json.load(open(os.path.join(core.VERIF, 'vf', 'ia32_controls.json')))['C01']
     n = len(good)
     bad = []
     def mut(i, f, clause):
